@@ -170,6 +170,42 @@ def gen_undo_case(rng, kind):
     return dict(section='undo', kind=kind, ops=ops)
 
 
+def gen_undo_chain_case(rng, kind):
+    """multi-step undo on one object: 4-6 revisions, then 2-4 undo transactions of arbitrary earlier
+    transactions — in particular "undo the current one" (the undo record is then a back pointer
+    without pickle) followed by the undo of an OLDER transaction, whose resolver call must be given
+    the data the back pointer designates as the current state; also undo of an undo"""
+    cid, args = rng.choice([(11, 0), (11, 0), (12, 0), (13, 1), (11, 2), (12, 0), (2, 0), (3, 0), (4, 0)])
+    oid = rng.choice([1, 7])
+    n = rng.choice([4, 4, 5, 6])
+    recs = []
+    while len(recs) < n:
+        tree = all_formats_tree(rng) if rng.random() < 0.2 else gen_tree(rng, rng.choice([0, 1, 2]), refs=rng.random() < 0.6)
+        r = L.rec_wire(cid, args, tree)
+        if r not in recs:
+            recs.append(r)
+    ops = []
+    tid = 10
+    tids = []
+    for r in recs:
+        tid += rng.choice([1, 5])
+        ops += ['begin 1 %d' % tid, 'store 1 %d %d %s' % (oid, tids[-1] if tids else 0, r), 'vote 1', 'finish 1']
+        tids.append(tid)
+    for step in range(rng.choice([2, 3, 3, 4])):
+        tid += rng.choice([1, 3])
+        r = rng.random()
+        if step == 0 and r < 0.6:
+            undone = tids[-1]                       # the current one: plain copy, back-pointer record
+        elif r < 0.85:
+            undone = rng.choice(tids[1:-1])         # an older one: needs the resolver
+        else:
+            undone = rng.choice(tids[1:])
+        ops.append('undotxn %d %d %d' % (tid, oid, undone))
+        tids.append(tid)                            # belief (an UndoError leaves no transaction)
+    ops += ['cur %d' % oid, 'load %d' % oid, 'hist %d' % oid]
+    return dict(section='undo', kind=kind, ops=ops)
+
+
 # ----------------------------------------------------------------------------------- db level
 TARGETS = ['tp', 'tn', 'tm', 'op', 'on']          # plain, newargs, merge (main db); plain, newargs (other db)
 
@@ -521,6 +557,8 @@ def main(argv=None):
         for kind in ('file', 'demo:file:mapping'):
             for _ in range(n_un):
                 cases.append(gen_undo_case(ck.rng, kind))
+            for _ in range(n_un):
+                cases.append(gen_undo_chain_case(ck.rng, kind))
         for kind in KINDS[:3]:
             for _ in range(n_db):
                 cases.append(gen_db_case(ck.rng, kind))
